@@ -244,7 +244,11 @@ func Run(ctx *core.Ctx) {
 		"after 1, 2 or 3 attempts with backoff; dialvia's ConnectTimeout during the first attempt, with 1 and 3 attempts, or during the second one; the client, which closes " +
 		"its connection while the dial hangs) x client CONNECT / plain / GET https:// / intercepted x TCP server / handler variant, limits of 250..450 ms, every instance with the " +
 		"forwarder.Dialer of NewHTTPTransport and connection tracking as command/run leaves it: 504 with X-Forwarder-Error (status and label compared with Model.C12.dialContext " +
-		"of the attempt outcomes), the same again on the same connection, the instance still serving afterwards. Every case with a " +
+		"of the attempt outcomes), the same again on the same connection, the instance still serving afterwards; hostile NAMES at the interception point " +
+		"(certnames.go): CONNECT authority (non-ASCII UTF-8, raw bytes >= 0x80, percent-encoded, empty / over-long labels, over-long names, IP-literal look-alikes, " +
+		"odd ASCII) x server name of the ClientHello (same / absent / another hostile / good) on the mitm and authmitm instances, the handshake started, each phase " +
+		"a well-formed response or a close, the handshake outcome compared with Model.C12.certGen, and after each (and beside crowds of 3..8 at once) a connection " +
+		"to a host the instance has never seen intercepted within 2 s (MITM handshake time-out 3 s). Every case with a " +
 		"fault, hostile input or scripted reply is non-trivial; distinct = distinct (kind, path, framing, fault point, FIN/RST, input / reply bytes)")
 	// the corpus: single cases as one batch (ids made distinct), recorded batches as they are
 	var corpus []*Case
